@@ -14,7 +14,7 @@ class Family:
     """Uniform driver around one model class + parameters."""
 
     def __init__(self, name, cls, kind, cap, params=None, rot=None, rot_params=None,
-                 complex_=False, time_ordered=False, min_modes=2, multi_sample=False):
+                 complex_=False, time_ordered=False, min_modes=2, multi_sample=False, generic_rot=False):
         self.name = name
         self.cls = cls
         self.kind = kind            # "single" | "cross" | "multi"
@@ -25,6 +25,7 @@ class Family:
         self.complex = complex_
         self.time_ordered = time_ordered
         self.multi_sample = multi_sample
+        self.generic_rot = generic_rot   # the data are chosen so that the rotated modes are re-ordered and re-signed non-trivially
 
     # -- capabilities (python mirror of the TLA+ table)
     CAPS = {
@@ -111,6 +112,8 @@ def _fam():
         f[fam.name] = fam
 
     add("EOF", S.EOF, "single", "CapSingle", dict(n_modes=3), rot=S.EOFRotator, rot_params=dict(n_modes=3, power=1))
+    # four rotated modes out of five: the variance order of the rotated modes is a proper permutation with mixed signs
+    add("EOF5r4", S.EOF, "single", "CapSingle", dict(n_modes=5), rot=S.EOFRotator, rot_params=dict(n_modes=4, power=1), generic_rot=True)
     add("EOFstd", S.EOF, "single", "CapSingle", dict(n_modes=3, standardize=True), rot=S.EOFRotator, rot_params=dict(n_modes=3, power=2))
     add("ComplexEOF", S.ComplexEOF, "single", "CapSingle", dict(n_modes=3), rot=S.ComplexEOFRotator,
         rot_params=dict(n_modes=3, power=1), complex_=True)
